@@ -27,8 +27,9 @@ THEOREMS = [
     "Mesa.Legacy.C18_legacy_moveToOneOf_reject_unchanged",
     "Mesa.Legacy.C18_legacy_moveToEmpty_reject_unchanged",
     "Mesa.Legacy.C18_legacy_step_reject_unchanged",
+    "Mesa.Legacy.C18_legacy_rejected_calls_deletable",
 ]
-COUNTS = {"quick": 1600, "thorough": 24000}
+COUNTS = {"quick": 1600, "thorough": 20000}
 TRUSTED = [
     "CPython list/set/dict semantics (a cell is a list of agent ids, `_empties` a set kept as a sorted list, `agent.pos` a map)",
     "numpy boolean array indexing of `_empty_mask` (modelled as a function cell -> Bool)",
@@ -93,9 +94,9 @@ def tags(sc, obs):
     if not built:
         yield "branch:empties-never-built"
     tr = sc.meta.get("trace") or []
-    for e in tr:
+    for i, e in enumerate(tr):
         if e["op"][0] == "mte" and e["res"] == "ok":
-            n = sum(1 for v in e["before"]["cells"].values() if not v)
+            n = sum(1 for v in L.trace_before(tr, i)["cells"].values() if not v)
             yield "branch:mte-" + ("sampling" if n > int(w[7]) else "choice")
 
 
